@@ -22,13 +22,13 @@ pub struct F {
 }
 
 pub fn ascii() -> F {
-    F { name: "ascii", e: &E_ASCII, l: &lf::FORMAT_ASCII, names: &["a", "b1", "x-y", "0", "Zz9", "k\u{e0101}", "q٣²"], extra_names: &["x_y", "é", "😀", "A1", "p--q", "x_", "\u{1fb93}\u{f0000}", "a0123456789b0123456789c0123456789d0123456789e0123456789f0123456789"] }
+    F { name: "ascii", e: &E_ASCII, l: &lf::FORMAT_ASCII, names: &["a", "b1", "x-y", "0", "Zz9", "k\u{e0101}", "q٣²", "p--q"], extra_names: &["x_y", "é", "😀", "A1", "p---q", "x_", "\u{1fb93}\u{f0000}", "a0123456789b0123456789c0123456789d0123456789e0123456789f0123456789"] }
 }
 pub fn latex() -> F {
-    F { name: "latex", e: &E_LATEX, l: &lf::FORMAT_LATEX, names: &["a", "b1", "x-y", "0", "Zz9", "k\u{e0101}", "q٣²"], extra_names: &["x_y", "é", "😀", "A1", "p--q", "x_", "\u{1fb93}\u{f0000}", "a0123456789b0123456789c0123456789d0123456789e0123456789f0123456789"] }
+    F { name: "latex", e: &E_LATEX, l: &lf::FORMAT_LATEX, names: &["a", "b1", "x-y", "0", "Zz9", "k\u{e0101}", "q٣²", "p--q"], extra_names: &["x_y", "é", "😀", "A1", "p---q", "x_", "\u{1fb93}\u{f0000}", "a0123456789b0123456789c0123456789d0123456789e0123456789f0123456789"] }
 }
 pub fn han() -> F {
-    F { name: "han", e: &E_HAN, l: &lf::FORMAT_HAN, names: &["a", "b1", "x-y", "0", "Zz9", "k\u{e0101}", "q٣²", "甲", "乙将"], extra_names: &["x_y", "é", "😀", "A1", "p--q", "x_", "\u{1fb93}\u{f0000}", "a0123456789b0123456789c0123456789d0123456789e0123456789f0123456789"] }
+    F { name: "han", e: &E_HAN, l: &lf::FORMAT_HAN, names: &["a", "b1", "x-y", "0", "Zz9", "k\u{e0101}", "q٣²", "p--q", "甲", "乙将"], extra_names: &["x_y", "é", "😀", "A1", "p---q", "x_", "\u{1fb93}\u{f0000}", "a0123456789b0123456789c0123456789d0123456789e0123456789f0123456789"] }
 }
 pub fn all() -> [F; 3] {
     [ascii(), latex(), han()]
